@@ -9,12 +9,20 @@ import (
 	"fmt"
 	"io"
 	"strings"
+	"unicode/utf16"
 )
 
 func applyVariant(typ, variant string, src []byte, base string) []byte {
 	switch {
 	case variant == "" || variant == "plain":
 		return src
+	case (typ == "ps1" || typ == "ps1xml" || typ == "mof") && variant == "utf16le":
+		text := strings.TrimPrefix(string(src), "\xef\xbb\xbf")
+		out := []byte{0xff, 0xfe}
+		for _, u := range utf16.Encode([]rune(text)) {
+			out = append(out, byte(u), byte(u>>8))
+		}
+		return out
 	case typ == "pgp-clearsign" && variant == "longline":
 		// one line longer than any 4 KiB buffer but shorter than a 64 KiB scanner limit
 		return append(append([]byte(nil), src...), []byte("long: "+strings.Repeat("0123456789abcdef", 400)+"\nafter the long line\n")...)
